@@ -1103,4 +1103,87 @@ theorem fromPath_stream (syn : Syntax) (path base : Str)
 theorem canonOf_star (syn : Syntax) : canonOf syn ['*'] [] = ['*'] := by cases syn <;> decide
 theorem canonOf_sstar (syn : Syntax) : canonOf syn ['*', '*'] [] = ['*', '*'] := by cases syn <;> decide
 
+/-! ### the `pattern == path` shortcut -/
+
+/-- every pattern matches its own text -/
+theorem glob_self : ∀ p : Str, Glob p p
+  | [] => .nil
+  | c :: p => by
+    by_cases h1 : c = '*'
+    · subst h1
+      have := Glob.star (p := p) (w := p) ['*'] (by decide) (glob_self p)
+      simpa using this
+    · by_cases h2 : c = '?'
+      · subst h2; exact .any1 (by decide) (glob_self p)
+      · exact .lit h1 h2 (glob_self p)
+
+theorem specMatch_self (real : Bool) (P : Str) : SpecMatch real P P :=
+  ⟨[], P, [], by simp, Or.inl rfl, Or.inl rfl, glob_self P⟩
+
+theorem not_abs_of_rel {p : Str} (h : isRelativePattern p = true) : isAbsolute p = false := by
+  cases p with
+  | nil => rfl
+  | cons c r =>
+    by_cases hc : c = '/'
+    · subst hc; simp [isRelativePattern, cat] at h
+    · simp [isAbsolute, hc]
+
+/-- **the `pattern == path` shortcut is covered by the rule**: a pattern always matches the path that is spelled
+    exactly like it (inside the documented domain; `FastPathOk`: not for a free pattern with a relative base path) -/
+theorem fast_path_spec (syn : Syntax) (pattern base : Str)
+    (hp : CanonDomain (rawPattern syn pattern base).1 (rawPattern syn pattern base).2 = true)
+    (hx : CanonDomain (rawPath syn pattern base).1 (rawPath syn pattern base).2 = true)
+    (hf : FastPathOk syn pattern base = true) :
+    SpecMatch (isReal pattern) (canonPattern syn pattern base) (canonPath syn pattern base) := by
+  unfold canonPattern canonPath
+  unfold rawPattern at hp
+  unfold rawPath at hx
+  by_cases hrel : isRelativePattern pattern = true
+  · have ha := not_abs_of_rel hrel
+    simp only [hrel, ha, if_true, Bool.false_eq_true, if_false]
+    exact specMatch_self _ _
+  · have hrel' : isRelativePattern pattern = false := by simpa using hrel
+    by_cases habs : isAbsolute pattern = true
+    · simp only [hrel', habs, if_true, Bool.false_eq_true, if_false]
+      exact specMatch_self _ _
+    · have habs' : isAbsolute pattern = false := by simpa using habs
+      simp only [hrel', habs', Bool.false_eq_true, if_false] at hp hx ⊢
+      have hreal : isReal pattern = false := by simp [isReal, hrel', habs']
+      rw [hreal]
+      simp only [FastPathOk, hreal, Bool.false_or, Bool.or_eq_true, Bool.and_eq_true, beq_iff_eq] at hf
+      rcases hf with he | ⟨hb, hr⟩
+      · have : base = [] := by cases base <;> simp_all
+        subst this
+        rw [canonOf_nil_left]
+        exact specMatch_self _ _
+      · obtain ⟨pre, e, hpre⟩ := canonOf_join syn base pattern hb hr hp hx
+        rcases hpre with h | ⟨hP, hY⟩
+        · exact ⟨pre, canonOf syn pattern [], [], by simp [e], Or.inl rfl, Or.inr ⟨rfl, h⟩, glob_self _⟩
+        · rw [hP] at *
+          exact ⟨[], [], canonOf syn base pattern, by simp, Or.inr hY, Or.inl rfl, .nil⟩
+
+
+theorem rootLen_unix_zero (p : Str) (h : isAbsolute p = false) : rootLen .unix (cstr p) = 0 := by
+  cases p with
+  | nil => rfl
+  | cons c r =>
+    have hc : c ≠ '/' := by intro e; subst e; simp [isAbsolute] at h
+    by_cases hn : c = NUL
+    · subst hn; simp [cstr, rootLen, cat, issep, NUL]
+    · have : cstr (c :: r) = c :: cstr r := by simp [cstr, List.takeWhile_cons, hn]
+      rw [this]
+      simp [rootLen, cat, issep, hc]
+
+/-- unix syntax with an absolute (or empty) base path: the shortcut is always covered -/
+theorem fastPathOk_unix (p base : Str) (hb : isAbsolute base = true ∨ base = []) : FastPathOk .unix p base = true := by
+  simp only [FastPathOk, Bool.or_eq_true, Bool.and_eq_true, beq_iff_eq]
+  rcases hb with hb | hb
+  · by_cases hr : isReal p = true
+    · exact Or.inl (Or.inl hr)
+    · right
+      refine ⟨hb, rootLen_unix_zero p ?_⟩
+      simp only [isReal, Bool.or_eq_true, not_or, Bool.not_eq_true] at hr
+      exact hr.1
+  · subst hb; exact Or.inl (Or.inr rfl)
+
 end Cppcheck.PathMatch
